@@ -93,7 +93,16 @@ class RuleResult:
     def floor(self, name, count, floor):
         self.floors[name] = (count, floor)
 
-    def floor_failures(self):
+    def floor_failures(self, reference=True):
+        """Instance counts below the floor confirmed by reading.  On a reference tree any shortfall fails closed
+        (the matcher went blind).  On a changed tree a small drift is what refactoring does to counts (two mode
+        tests merged into one, a loop folded away) and is only recorded; losing more than half of a rule's
+        instances still fails closed."""
+        if reference:
+            return [(n, c, f) for n, (c, f) in self.floors.items() if c < f]
+        return [(n, c, f) for n, (c, f) in self.floors.items() if c * 2 < f]
+
+    def floor_drift(self):
         return [(n, c, f) for n, (c, f) in self.floors.items() if c < f]
 
     def to_json(self):
